@@ -16,7 +16,7 @@ Lite == F.lite        \* rf24_lite: ValueError instead of IndexError, no per-pip
 
 St(j) == [c |-> j.c, aa |-> j.aa, en |-> j.en, aw |-> j.aw, retr |-> j.retr, ch |-> j.ch, rf |-> j.rf, dyn |-> j.dyn,
           feat |-> j.feat, pw |-> j.pw, p0 |-> j.p0, p1 |-> j.p1, p25 |-> j.p25, txa |-> j.txa, ce |-> j.ce]
-PreOf(e) == IF e.par = 0 THEN e.pre ELSE N[e.par].post
+PreOf(e) == IF "pre" \in DOMAIN e THEN e.pre ELSE N[e.par].post
 Differs(a, b) == {f \in Fields : a[f] # b[f]}
 ExcOk(want, got) == \/ want = got \/ (want = "any" /\ got # "none")
                     \/ (Lite /\ want = "IndexError" /\ got = "ValueError")
